@@ -253,6 +253,26 @@ def _format_chained_binary(
                 if not operator_str.endswith(" "):
                     operator_str = operator_str.rstrip() + " "
                 rebuilt += f"{op_sep}{operator_str}{right_str}"
+        elif right_newline and (
+            _has_leading_comment(operand_slot.expr)
+            or any(
+                isinstance(item, Comment) and not item.inline
+                for item in operand_slot.extra_before
+            )
+        ):
+            # An own-line comment leads the operand: it stays below the
+            # operator instead of being pulled onto the operator's line.
+            right_sep = "\n" * right_gap_lines
+            right_indent = indent + 2
+            right_str = _rebuild_operand(
+                operand_slot.expr,
+                indent=right_indent,
+                inline=True,
+                extra_before=operand_slot.extra_before,
+                extra_after=operand_slot.extra_after,
+            )
+            right_str = _ensure_indent(right_str, right_indent)
+            rebuilt += f" {operator_str.lstrip()}{right_sep}{right_str}"
         else:
             right_str = _rebuild_operand(
                 operand_slot.expr,
